@@ -254,6 +254,7 @@ pub fn run_live(a: &Args) {
         let mut plan = gen_plan(&mut rng, focus, &a.tier, case + 5);
         if plan.crash == 3 { plan.crash = 1; }
         plan.scen.threads.truncate(3);
+        for (i, t) in plan.scen.threads.iter_mut().enumerate() { if (case + i as u64) % 2 == 0 { t.name = Some(["ñandú-démo", "日本語", "tête"][i % 3].as_bytes().to_vec()); } }   // names whose UTF-8 and UTF-16 lengths differ
         if focus == "c20" { plan.skip = 1; }   // stacks that do not reference the principal mapping are left out
         if case == 0 && plan.napp == 0 { plan.scen.lines.push("appmem 0 100 4096".into()); plan.napp = 1; }
         // ... and a region whose tail lies in the unmapped page behind its mapping (only a prefix can be copied)
